@@ -125,8 +125,8 @@ func (h *authH) violate(mon, sig, what string) {
 	}
 	h.seen[sig] = true
 	hh := h.hist
-	if len(hh) > 40 {
-		hh = hh[len(hh)-40:]
+	if len(hh) > 40 { // the boot line and the first set-up line, then the most recent steps
+		hh = append(append([]string{}, hh[:2]...), hh[len(hh)-38:]...)
 	}
 	h.env.Violate(mon, sig, what, hh)
 }
@@ -825,6 +825,9 @@ func domAuth(env *Env) error {
 			h.taskGroup()
 			h.operatorMsgGroup()     // dom_auth_opmsg.go: on whose record an admitted operator message lands
 			h.discardedParamsGroup() // dom_auth_discard.go: params updates on dropped store branches, then the checks again (last: see there)
+			// every registered sdk.Msg type as an outsider's signed tx, on a chain of its own (dom_auth_allmsgs.go)
+			h.boot(env.Report.Seed*1000+uint64(hi), chain)
+			h.allMsgsGroup()
 			env.Report.Histories++
 			if hi == 0 {
 				env.Sample(strings.Join(h.hist[:min(len(h.hist), 12)], " ; "))
